@@ -15,8 +15,33 @@ pub struct Plain {
 }
 
 impl Plain {
+    /// The plaintext. Half of the seeds give PRNG bytes; the rest give content with structure that
+    /// value-dependent defects key on: all zeros, all 0xFF, bytes that look like kestrel's own
+    /// headers and chunk records (magic, counters, last-chunk flags, length fields), and text.
     pub fn bytes(&self) -> Vec<u8> {
-        crate::rng::fill(self.len, self.fill_seed)
+        let n = self.len;
+        match self.fill_seed % 8 {
+            4 => vec![0u8; n],
+            5 => vec![0xffu8; n],
+            6 => {
+                let mut v = Vec::with_capacity(n + 32);
+                v.extend_from_slice(if self.fill_seed & 8 == 0 { &[0x65, 0x67, 0x6b, 0x10] } else { &[0x65, 0x67, 0x6b, 0x20] });
+                let mut ctr = 0u64;
+                while v.len() < n {
+                    v.extend_from_slice(&ctr.to_be_bytes());
+                    v.extend_from_slice(&((ctr % 3 == 2) as u32).to_be_bytes());
+                    v.extend_from_slice(&(if ctr % 2 == 0 { 0u32 } else { 65536 }).to_be_bytes());
+                    ctr += 1;
+                }
+                v.truncate(n);
+                v
+            }
+            7 => {
+                let line = b"[Key]\nName = plaintext that looks like a keyring\r\n\tPublicKey = AAAA\n";
+                line.iter().cycle().take(n).copied().collect()
+            }
+            _ => crate::rng::fill(n, self.fill_seed),
+        }
     }
 }
 
